@@ -1405,6 +1405,9 @@ def store12(ctx) -> List[Ob]:
             is_copy = (isinstance(par, ast.Call) and isinstance(par.func, ast.Name) and par.func.id in ("list", "tuple") and par.args and par.args[0] is n) or isinstance(par, ast.comprehension)
             if is_copy and (method_calls(fn.node, "replace_jump_targets") or fn.qualname.startswith("SCFGIO.")):
                 out.append(ok("STORE-12", fn.qualname, key, where, "copied for positional re-targeting / serialisation"))
+            elif fn.qualname.startswith("SCFGIO.") and isinstance(par, ast.For) and par.iter is n and any(isinstance(b_, ast.Attribute) and b_.attr == "backedges" for b_ in ast.walk(par)):
+                # a writer walks the raw tuple and tells the declared back edges apart element by element
+                out.append(ok("STORE-12", fn.qualname, key, where, "serialised element by element, back edges told apart inside the loop"))
             else:
                 out.append(bad("STORE-12", fn.qualname, key, where, f"{A.unparse(n)[:40]} (raw successors incl. declared back edges) is read by a structure query: loops that are already restructured are seen again, back edges count as forward arcs"))
     return out
